@@ -18,7 +18,8 @@ EXPLANATION = ("Socket streams: the protocol appends received data at the tail o
                "broken streams refuse send before writing; both directions of both stream classes run inside their own ResourceGuard; the UNIX "
                "stream sends until the view is empty advancing by exactly the bytes sent, passes max_bytes to recv and maps errors by state; "
                "except clauses are not shadowed (BlockingIOError before OSError)."
-               " A would-block waits for readiness in the direction of the blocked operation, and the two wait helpers register, unregister and record their own direction.")
+               " A would-block waits for readiness in the direction of the blocked operation, and the two wait helpers register, unregister and record their own direction."
+               " Closing a raw socket stream wakes a blocked receive and a blocked send independently of one another; the write gate is read after the write (callback-written fields are never aliased across a call).")
 NOT_DECIDED = "Kernel socket buffers, asyncio transport internals, uvloop, ProactorEventLoop, real full-duplex timing."
 
 
